@@ -306,6 +306,7 @@ func runC06paths(r resIface, cfg *c06cfg, rng *prng.R, scratch string, idx int) 
 			}
 		}
 		type incrOut struct {
+			multi      int
 			got        map[string]bool
 			scripts    int
 			opinfo     int
@@ -340,12 +341,32 @@ func runC06paths(r resIface, cfg *c06cfg, rng *prng.R, scratch string, idx int) 
 				ordered := append(append(first, second...), rest...)
 				var cmds []srcCmd
 				cur := -1
-				for i, k := range ordered {
+				multiKeyCmds := 0
+				for i := 0; i < len(ordered); i++ {
+					k := ordered[i]
 					if k.DB != cur {
 						cur = k.DB
 						cmds = append(cmds, srcCmd{Name: "SELECT", Args: [][]byte{[]byte(strconv.Itoa(cur))}})
 					}
-					cmds = append(cmds, srcCmd{Name: orng.PickS("SET", "set", "SeT"), Args: [][]byte{[]byte(k.Key), []byte("v")}})
+					// one key in three shares a multi-key write with its successors (same database): every key of
+					// such a command gets its own decision, whatever its position in the argument list
+					grp := 1
+					if orng.Chance(1, 3) {
+						for grp < 3 && i+grp < len(ordered) && ordered[i+grp].DB == k.DB {
+							grp++
+						}
+					}
+					if grp > 1 {
+						var args [][]byte
+						for _, g := range ordered[i : i+grp] {
+							args = append(args, []byte(g.Key), []byte("v"))
+						}
+						cmds = append(cmds, srcCmd{Name: orng.PickS("MSET", "mset"), Args: args})
+						multiKeyCmds++
+						i += grp - 1
+					} else {
+						cmds = append(cmds, srcCmd{Name: orng.PickS("SET", "set", "SeT"), Args: [][]byte{[]byte(k.Key), []byte("v")}})
+					}
 					switch i % 9 {
 					case 3:
 						cmds = append(cmds, srcCmd{Name: orng.PickS("EVAL", "eval"), Args: [][]byte{[]byte("return 1"), []byte("0")}})
@@ -361,7 +382,7 @@ func runC06paths(r resIface, cfg *c06cfg, rng *prng.R, scratch string, idx int) 
 				want := c06expect(ks, cfg, "incr")
 				waitUntil(5*time.Second, func() bool { return len(targetSet(srv)) >= len(want) })
 				time.Sleep(600 * time.Millisecond) // one more flush-ticker period: anything wrongly forwarded shows up
-				o := incrOut{got: targetSet(srv)}
+				o := incrOut{got: targetSet(srv), multi: multiKeyCmds}
 				srv.Mu.Lock()
 				for _, l := range srv.Log {
 					switch l.Name {
@@ -394,6 +415,7 @@ func runC06paths(r resIface, cfg *c06cfg, rng *prng.R, scratch string, idx int) 
 				break
 			}
 			r.Count("incr_stream_orders", 1)
+			r.Count("incr_multi_key_commands", int64(o.multi))
 			if o.opinfo > 0 {
 				r.Violation(sig("incr", "bookkeeping-command-forwarded"), fmt.Sprintf("%d opinfo commands reached the target", o.opinfo), cfg)
 				break
@@ -501,7 +523,7 @@ func c06(c *wk.Ctx) {
 		return p + string(rng.Alpha(rng.Range(0, 5), "abc:{}"))
 	}
 	lists := [][]string{nil, {"no:"}, {"no:", "tmp"}, {"ok:", "k"}, {"redis-shake"}, {"a\xffb"}, {""}}
-	npred := c.N(200000, 2000000)
+	npred := c.N(200000, 8000000)
 	for i := 0; i < npred; i++ {
 		bl, wl := lists[rng.Intn(len(lists))], lists[rng.Intn(len(lists))]
 		if rng.Bool() {
@@ -562,7 +584,7 @@ func c06(c *wk.Ctx) {
 		}
 		r.Violationf("C06|outcome=process-aborted", json.RawMessage(d.Desc), "a data path ended the process (exit %d): %s", d.Result.Exit, firstPanicLine(d.Result.Stderr))
 	}
-	n := len(c06configs()) * c.N(1, 8)
+	n := len(c06configs()) * c.N(1, 24)
 	wk.Parallel(n, 11, func(i int) {
 		wk.RunBatch(c, "c06paths", i, i+1, nil, 20*time.Minute, onDeath)
 	})
